@@ -851,10 +851,7 @@ where
                 reader.get_u8() as u32
             };
             let blob = read_blob(reader, len)?;
-            return recognizer
-                .feed_event(blob.into())
-                .transpose()
-                .map_err(Into::into);
+            return feed_eor(recognizer, blob);
         }
         Marker::Bin16 => {
             let len = if reader.remaining() < std::mem::size_of::<u16>() {
@@ -863,10 +860,7 @@ where
                 reader.get_u16() as u32
             };
             let blob = read_blob(reader, len)?;
-            return recognizer
-                .feed_event(blob.into())
-                .transpose()
-                .map_err(Into::into);
+            return feed_eor(recognizer, blob);
         }
         Marker::Bin32 => {
             let len = if reader.remaining() < std::mem::size_of::<u32>() {
@@ -875,10 +869,13 @@ where
                 reader.get_u32()
             };
             let blob = read_blob(reader, len)?;
-            return recognizer
-                .feed_event(blob.into())
-                .transpose()
-                .map_err(Into::into);
+            return feed_eor(recognizer, blob);
+        }
+        marker if is_ext(marker) => {
+            return match read_ext(reader, marker)? {
+                Either::Left(n) => feed_eor(recognizer, n),
+                Either::Right(n) => feed_eor(recognizer, n),
+            }
         }
         ow => return Err(MsgPackReadError::InvalidMarker(ow)),
     };
